@@ -367,18 +367,35 @@ func run(ctx context.Context, t interface {
 					locs = append(locs, mv.OldFile)
 				}
 			}
+			// a path suppression that only covers the previous file applies when the rule hands the previous
+			// element to the annotation; that is known for the deleted-field rules (located at the message, with
+			// the previous message), for other rules it depends on the rule and the values involved
+			onlyViaPrevious := false
 			for _, p := range cfg.Ignore {
-				for _, l := range locs {
+				for i, l := range locs {
 					if l != "" && under(p, l) {
 						sup = "ignore"
+						onlyViaPrevious = onlyViaPrevious || i > 0
 					}
 				}
 			}
 			for _, p := range ignoreOnlyRules[rule] {
-				for _, l := range locs {
+				for i, l := range locs {
 					if l != "" && under(p, l) {
 						sup = "ignore_only"
+						onlyViaPrevious = onlyViaPrevious || i > 0
 					}
+				}
+			}
+			if sup != "" && onlyViaPrevious && !strings.HasPrefix(rule, "FIELD_NO_DELETE") {
+				coveredNow := false
+				for _, p := range append(append([]string{}, cfg.Ignore...), ignoreOnlyRules[rule]...) {
+					coveredNow = coveredNow || under(p, a.Path)
+				}
+				if !coveredNow {
+					optional[key(a)] = true
+					r.Class("annotation-on-moved-element:previous-file-suppression-rule-dependent")
+					continue
 				}
 			}
 			if len(locs) > 1 {
@@ -836,8 +853,8 @@ func genBreaking(ctx context.Context, t *rapid.T) *Case {
 	var movedFrom string
 	if rapid.Bool().Draw(t, "move") {
 		if m, from, _, ok := ed.MoveMessage(nw); ok {
+			movedMsg, movedFrom = m, from.Path
 			if f := ed.DeleteFieldOf(m); f != nil {
-				movedMsg, movedFrom = m, from.Path
 				hot["FIELD_NO_DELETE"] = true
 				hot["FIELD_NO_DELETE_UNLESS_NUMBER_RESERVED"] = true
 				hot["MESSAGE_NO_DELETE"] = true
